@@ -9,6 +9,7 @@
   Meant to be read in minutes.  Everything is executable (the driver uses it as oracle).
 -/
 import SonicModel.Basic
+import SonicModel.Spec.Num
 namespace Sonic
 namespace Spec
 
@@ -43,6 +44,16 @@ def number (buf : Buf) (i : Nat) : Option Nat :=
   match buf[i1]? with
   | none => none
   | some c => if isDigit c then afterFirst buf c (i1+1) else none
+
+/-- number token at the given strength: a fully decoding entry point additionally requires the
+    value to be finite as f64 -/
+def numberS (strict : Bool) (buf : Buf) (i : Nat) : Option Nat :=
+  match number buf i with
+  | some e => if strict && !finite buf i e then none else some e
+  | none => none
+
+@[simp] theorem numberS_false (buf : Buf) (i : Nat) : numberS false buf i = number buf i := by
+  unfold numberS; cases number buf i <;> simp
 
 /-! ### strings -/
 
@@ -151,7 +162,7 @@ def value (strict : Bool) : Nat → Buf → Nat → Res
     match buf[i]? with
     | none => .err
     | some c =>
-      if c == 45 || isDigit c then .ofOpt (number buf i)
+      if c == 45 || isDigit c then .ofOpt (numberS strict buf i)
       else if c == 34 then .ofOpt (string strict buf (i+1))
       else if c == 123 then
         let j := skipWs buf (i+1)
